@@ -13,6 +13,7 @@ import (
 	"strconv"
 	"strings"
 
+	"verif/harness/cmd/h-gerrclone/wire"
 	"verif/harness/internal/hx"
 )
 
@@ -23,30 +24,39 @@ type fieldKind struct {
 	goType string   // Go type text
 	vals   []string // Go expressions; index 0 is the zero value
 	render []string // fmt %v of each
+	embed  string   // for kinds used as anonymous (embedded) fields: the field name Go derives from the type
 }
 
+const namedKinds = 9 // fieldKinds[:namedKinds] are used for named fields, the rest only embedded
+
 var fieldKinds = []fieldKind{
-	{"int", "int", []string{"0", "7", "-3"}, []string{"0", "7", "-3"}},
-	{"string", "string", []string{`""`, `"hello"`, `"a, b: c"`, `"hé %d"`}, []string{"", "hello", "a, b: c", "hé %d"}},
-	{"bool", "bool", []string{"false", "true"}, []string{"false", "true"}},
-	{"float", "float64", []string{"0", "1.5"}, []string{"0", "1.5"}},
-	{"dur", "time.Duration", []string{"0", "1500 * time.Millisecond"}, []string{"0s", "1.5s"}},
-	{"strs", "[]string", []string{"nil", `[]string{"x", "y"}`}, []string{"[]", "[x y]"}},
-	{"ptr", "*Pt", []string{"nil", "&Pt{A: 5}"}, []string{"<nil>", "&{5}"}},
-	{"status", "Status", []string{"Status(0)", "Status(3)"}, []string{"OK", "InvalidArgument"}},
-	{"any", "any", []string{"nil", "42", `"s"`}, []string{"<nil>", "42", "s"}},
+	{"int", "int", []string{"0", "7", "-3"}, []string{"0", "7", "-3"}, ""},
+	{"string", "string", []string{`""`, `"hello"`, `"a, b: c"`, `"hé %d"`}, []string{"", "hello", "a, b: c", "hé %d"}, ""},
+	{"bool", "bool", []string{"false", "true"}, []string{"false", "true"}, ""},
+	{"float", "float64", []string{"0", "1.5"}, []string{"0", "1.5"}, ""},
+	{"dur", "time.Duration", []string{"0", "1500 * time.Millisecond"}, []string{"0s", "1.5s"}, ""},
+	{"strs", "[]string", []string{"nil", `[]string{"x", "y"}`}, []string{"[]", "[x y]"}, ""},
+	{"ptr", "*Pt", []string{"nil", "&Pt{A: 5}"}, []string{"<nil>", "&{5}"}, ""},
+	{"status", "Status", []string{"Status(0)", "Status(3)"}, []string{"OK", "InvalidArgument"}, ""},
+	{"any", "any", []string{"nil", "42", `"s"`}, []string{"<nil>", "42", "s"}, ""},
+	// anonymous extra fields: a struct type, named basic types, a pointer to the struct type
+	{"tenant", "Tenant", []string{"Tenant{}", `Tenant{ID: "acme", Region: "eu-1"}`}, []string{"{ }", "{acme eu-1}"}, "Tenant"},
+	{"code", "Code", []string{"Code(0)", "Code(7)"}, []string{"0", "7"}, "Code"},
+	{"label", "Label", []string{`Label("")`, `Label("hot")`}, []string{"", "hot"}, "Label"},
+	{"ptenant", "*Tenant", []string{"nil", `&Tenant{ID: "acme", Region: "eu-1"}`}, []string{"<nil>", "&{acme eu-1}"}, "Tenant"},
 }
 
 type fieldDef struct {
-	RawTag  string // set when rebuilt from a stored case: the tag text as it was
-	Name    string
-	Kind    int
-	Tagged  bool
-	PrintAs string // "_" allowed in the tag; resolved name kept in printName()
-	Print   bool
-	Clone   bool
-	Order   string // "pc" or "cp": order of the options in the tag
-	Extra   bool   // another tag key in front
+	Embedded bool   // anonymous field: Name is the name of its type
+	RawTag   string // set when rebuilt from a stored case: the tag text as it was
+	Name     string
+	Kind     int
+	Tagged   bool
+	PrintAs  string // "_" allowed in the tag; resolved name kept in printName()
+	Print    bool
+	Clone    bool
+	Order    string // "pc" or "cp": order of the options in the tag
+	Extra    bool   // another tag key in front
 }
 
 func (f fieldDef) printName() string {
@@ -99,14 +109,39 @@ type extDef struct {
 
 func (d *extDef) typeName() string { return "X" + strconv.Itoa(d.ID) }
 
-// wire form: <name>:<printAs>:<print>:<clone>:<zero>:<kind>:<raw tag>,… (the model reads the first five)
+// optLetters: the options in the order the tag lists them
+func (f fieldDef) optLetters() string {
+	if !f.Tagged {
+		return "-"
+	}
+	o := ""
+	for _, c := range f.Order {
+		if c == 'p' && f.Print {
+			o += "p"
+		}
+		if c == 'c' && f.Clone {
+			o += "c"
+		}
+	}
+	if o == "" {
+		return "-"
+	}
+	return o
+}
+
+// wire form: <name>:<tag name|~>:<options>:<embedded>:<zero>:<kind>:<raw tag>,… — the field as the
+// generator's parser meets it (the model applies its own createField to the first five)
 func (d *extDef) spec() string {
 	if len(d.Fields) == 0 {
 		return "-"
 	}
 	p := make([]string, len(d.Fields))
 	for i, f := range d.Fields {
-		p[i] = fmt.Sprintf("%s:%s:%s:%s:%s:%s:%s", enc(f.Name), enc(f.printName()), b01(f.Tagged && f.Print), b01(f.Tagged && f.Clone), enc(fieldKinds[f.Kind].render[0]), fieldKinds[f.Kind].name, enc(f.tag()))
+		tn := "~"
+		if f.Tagged {
+			tn = enc(f.PrintAs)
+		}
+		p[i] = fmt.Sprintf("%s:%s:%s:%s:%s:%s:%s", enc(f.Name), tn, f.optLetters(), b01(f.Embedded), enc(fieldKinds[f.Kind].render[0]), fieldKinds[f.Kind].name, enc(f.tag()))
 	}
 	return strings.Join(p, ",")
 }
@@ -126,9 +161,27 @@ func randDef(rng *rand.Rand, id int, skip bool) *extDef {
 	n := rng.Intn(7)
 	perm := rng.Perm(len(fieldNamePool))
 	for i := 0; i < n; i++ {
-		f := fieldDef{Name: fieldNamePool[perm[i]], Kind: rng.Intn(len(fieldKinds)), Tagged: rng.Intn(6) != 0, PrintAs: printNamePool[rng.Intn(len(printNamePool))],
+		f := fieldDef{Name: fieldNamePool[perm[i]], Kind: rng.Intn(namedKinds), Tagged: rng.Intn(6) != 0, PrintAs: printNamePool[rng.Intn(len(printNamePool))],
 			Print: rng.Intn(2) == 0, Clone: rng.Intn(2) == 0, Order: []string{"pc", "cp"}[rng.Intn(2)], Extra: rng.Intn(5) == 0}
 		d.Fields = append(d.Fields, f)
+	}
+	// anonymous (embedded) extra fields, tagged like any other: Go names them after their type
+	if rng.Intn(2) == 0 {
+		used := map[string]bool{}
+		for k := 1 + rng.Intn(2); k > 0; k-- {
+			kind := namedKinds + rng.Intn(len(fieldKinds)-namedKinds)
+			if used[fieldKinds[kind].embed] {
+				continue
+			}
+			used[fieldKinds[kind].embed] = true
+			f := fieldDef{Embedded: true, Name: fieldKinds[kind].embed, Kind: kind, Tagged: rng.Intn(8) != 0, PrintAs: printNamePool[rng.Intn(len(printNamePool))],
+				Print: rng.Intn(3) != 0, Clone: rng.Intn(3) != 0, Order: []string{"pc", "cp"}[rng.Intn(2)]}
+			if len(d.Fields) >= 6 {
+				d.Fields = d.Fields[:5]
+			}
+			at := rng.Intn(len(d.Fields) + 1)
+			d.Fields = append(d.Fields[:at], append([]fieldDef{f}, d.Fields[at:]...)...)
+		}
 	}
 	return d
 }
@@ -154,11 +207,15 @@ func goListDir(hd, pkg string) (string, error) {
 func defsFile(pkg string, defs []*extDef) string {
 	var b strings.Builder
 	fmt.Fprintf(&b, "package %s\n\nimport (\n\t\"fmt\"\n\t\"time\"\n\n\t\"github.com/drshriveer/gtools/gerror\"\n)\n\nvar _ = fmt.Sprint\nvar _ time.Duration\nvar _ gerror.Factory\n\n", pkg)
-	b.WriteString("// Pt is a small struct to point at.\ntype Pt struct{ A int }\n\n// Status is a named integer with a String method.\ntype Status int\n\nfunc (s Status) String() string {\n\tswitch s {\n\tcase 0:\n\t\treturn \"OK\"\n\tcase 3:\n\t\treturn \"InvalidArgument\"\n\t}\n\treturn \"UNKNOWN\"\n}\n\n")
+	b.WriteString("// Pt is a small struct to point at.\ntype Pt struct{ A int }\n\n// Tenant, Code and Label are embedded anonymously by some definitions.\ntype Tenant struct{ ID, Region string }\n\ntype Code int\n\ntype Label string\n\n// Status is a named integer with a String method.\ntype Status int\n\nfunc (s Status) String() string {\n\tswitch s {\n\tcase 0:\n\t\treturn \"OK\"\n\tcase 3:\n\t\treturn \"InvalidArgument\"\n\t}\n\treturn \"UNKNOWN\"\n}\n\n")
 	for _, d := range defs {
 		fmt.Fprintf(&b, "type %s struct {\n\tgerror.GError\n", d.typeName())
 		for _, f := range d.Fields {
-			fmt.Fprintf(&b, "\t%s %s%s\n", f.Name, fieldKinds[f.Kind].goType, f.tag())
+			if f.Embedded {
+				fmt.Fprintf(&b, "\t%s%s\n", fieldKinds[f.Kind].goType, f.tag())
+			} else {
+				fmt.Fprintf(&b, "\t%s %s%s\n", f.Name, fieldKinds[f.Kind].goType, f.tag())
+			}
 		}
 		b.WriteString("}\n\n")
 		if d.Skip {
@@ -340,7 +397,17 @@ func exec(line string) string {
 		if e1 != nil || e2 != nil {
 			return "bad-op"
 		}
-		c, _, frames, problem := wire.ParseCall(ws[4:])
+		c, _, frames, problem := wire.ParseCallR(ws[4:], func(kind string, reg int) (error, bool) {
+			// a foreign error wrapping the extension value (w, j) or its plain-GError twin (v, k)
+			x, ok := regs[reg]
+			if !ok {
+				return nil, false
+			}
+			if kind == "w" || kind == "j" {
+				return x.ext, true
+			}
+			return x.base, true
+		})
 		if problem != "" {
 			return problem
 		}
@@ -557,7 +624,10 @@ func defsFromLines(lines []string, into map[int]*extDef, skip map[int]bool) {
 						continue
 					}
 					n, _ := dec(p[0])
-					pa, _ := dec(p[1])
+					pa := ""
+					if p[1] != "~" {
+						pa, _ = dec(p[1])
+					}
 					raw, _ := dec(p[6])
 					kind := 0
 					for k, fk := range fieldKinds {
@@ -568,7 +638,8 @@ func defsFromLines(lines []string, into map[int]*extDef, skip map[int]bool) {
 					if raw == "" {
 						raw = " "
 					}
-					d.Fields = append(d.Fields, fieldDef{RawTag: raw, Name: n, Kind: kind, Tagged: true, PrintAs: pa, Print: p[2] == "1", Clone: p[3] == "1", Order: "pc"})
+					d.Fields = append(d.Fields, fieldDef{Embedded: p[3] == "1", RawTag: raw, Name: n, Kind: kind, Tagged: p[1] != "~", PrintAs: pa,
+						Print: strings.Contains(p[2], "p"), Clone: strings.Contains(p[2], "c"), Order: "pc"})
 				}
 			}
 			into[id] = d
@@ -597,7 +668,11 @@ type c09gen struct {
 	frames string
 }
 
-func (g *c09gen) call(dst, reg int, m string) string {
+func takesStack(m string) bool { return m == "Stack" || strings.HasSuffix(m, "S") }
+
+// call builds one `gx call`; wrapRegs are registers holding values without a stack (their Error()
+// text is then fully predictable), usable as the gerror value a foreign error wraps.
+func (g *c09gen) call(dst, reg int, m string, wrapRegs []int) string {
 	rng := g.rng
 	var params []string
 	formatted, format := "", ""
@@ -632,6 +707,13 @@ func (g *c09gen) call(dst, reg int, m string) string {
 		}
 		elems = []elemSpec{e}
 		formatted = fmt.Sprintf("%+v", e.ErrValue())
+		if len(wrapRegs) > 0 && rng.Intn(2) == 0 {
+			// not a gerror itself but wrapping one (%w / errors.Join; around the extension value or its
+			// plain twin): the base type converts it like any foreign error, so must the generated type
+			k := string(wire.WrapKinds[rng.Intn(len(wire.WrapKinds))])
+			elems = []elemSpec{{Kind: k, Val: strconv.Itoa(wrapRegs[rng.Intn(len(wrapRegs))])}}
+			formatted = ""
+		}
 	}
 	ps := make([]string, len(params))
 	for i, p := range params {
@@ -662,19 +744,32 @@ func (g *c09gen) caseFor(d *extDef, preset int, tuples int) hx.Case {
 		idx[i] = strconv.Itoa(k)
 	}
 	lines = append(lines, fmt.Sprintf("gx new 0 %d %s %s %s V:%s I:%s", d.ID, enc("ErrX"+strconv.Itoa(d.ID)), enc(msg), enc(src), strings.Join(rend, ","), strings.Join(idx, ",")), "gx err 0")
+	reg1Stackless := false
 	methods := methodNames
 	if d.Skip {
 		methods = methodNames[:17] // Convert/ConvertS are the user's own code there
 	}
 	for t := 0; t < tuples; t++ {
 		for _, m := range methods {
-			lines = append(lines, g.call(1, 0, m))
+			// register 0 (the factory) never has a stack; register 1 once it holds a stack-free result
+			wrap := []int{0}
+			if t > 0 || m != methods[0] {
+				if reg1Stackless {
+					wrap = append(wrap, 1)
+				}
+			}
+			lines = append(lines, g.call(1, 0, m, wrap))
+			reg1Stackless = !takesStack(m)
 			switch rng.Intn(6) {
 			case 0:
 				lines = append(lines, "gx err 1")
 			case 1:
 				// continue the chain from the derived extension error
-				lines = append(lines, g.call(2, 1, methods[rng.Intn(len(methods))]), "gx err 2")
+				w2 := []int{0}
+				if reg1Stackless {
+					w2 = append(w2, 1)
+				}
+				lines = append(lines, g.call(2, 1, methods[rng.Intn(len(methods))], w2), "gx err 2")
 			}
 		}
 	}
@@ -682,6 +777,18 @@ func (g *c09gen) caseFor(d *extDef, preset int, tuples int) hx.Case {
 	tags := []string{fmt.Sprintf("fields-%d", len(d.Fields)), fmt.Sprintf("preset-%d", preset)}
 	if d.Skip {
 		tags = append(tags, "skipConvertGen")
+	}
+	for _, f := range d.Fields {
+		if f.Embedded {
+			tags = append(tags, "embedded-field")
+			break
+		}
+	}
+	for _, l := range lines {
+		if w := strings.Fields(l); len(w) == 10 && w[1] == "call" && len(w[9]) > 3 && strings.Contains(wire.WrapKinds, w[9][2:3]) && strings.HasPrefix(w[4], "Convert") {
+			tags = append(tags, "wrapped-gerror-input")
+			break
+		}
 	}
 	return hx.Case{Domain: d.Domain, Nontrivial: true, Tags: tags, Lines: lines}
 }
